@@ -413,7 +413,15 @@ pub fn check(p: &dyn Property, thorough: bool, meta: Meta) -> i32 {
         if unknown.is_empty() {
             continue;
         }
-        let (idx, rseed, first) = unknown[0];
+        // candidates: exactly replayable (sim-variant) findings first; if one does not
+        // reproduce from its replay file, the next ones are tried
+        let mut cands: Vec<&(u64, u64, Found)> = unknown.clone();
+        cands.sort_by_key(|(i, _, f)| (f.case.get("variant").map(|v| v == "os").unwrap_or(false), *i));
+        let mut verified: Option<String> = None;
+        let mut last_path = String::new();
+        let mut min_detail = serde_json::Value::Null;
+        for cand in cands.iter().take(4) {
+        let (idx, rseed, first) = (cand.0, cand.1, &cand.2);
         let os_variant = first.case.get("variant").map(|v| v == "os").unwrap_or(false);
         let vexe = if os_variant { std::env::var("MOMSIM_OS_EXE").unwrap_or(exe.clone()) } else { exe.clone() };
         let min = if os_variant || first.case["kind"] == "miri" { first.clone() } else { p.minimise(first) };
@@ -466,21 +474,35 @@ pub fn check(p: &dyn Property, thorough: bool, meta: Meta) -> i32 {
             write_json(&path, &file).expect("write replay");
             ok = verify_replay(&vexe, &path);
         }
-        if !ok {
-            eprintln!(
-                "HARNESS: finding of class {} (run {}) does not reproduce from its replay file {}; not reported as a violation",
-                class, idx, path
-            );
-            unreproduced += 1;
-            continue;
+        last_path = path.clone();
+        if ok {
+            verified = Some(path.clone());
+            min_detail = min.detail.clone();
+            break;
         }
+        eprintln!(
+            "HARNESS: finding of class {} (run {}) does not reproduce from its replay file {}; trying another occurrence",
+            class, idx, path
+        );
+        }
+        let path = match verified {
+            Some(p) => p,
+            None => {
+                eprintln!(
+                    "HARNESS: no occurrence of class {} reproduces from a replay file (last tried {}); not reported as a violation",
+                    class, last_path
+                );
+                unreproduced += 1;
+                continue;
+            }
+        };
         crate::say!(
             "VIOLATION property={} replay={} class={} occurrences={} detail={}",
             p.id(),
             path,
             class,
             m.found_per_class.get(class).copied().unwrap_or(unknown.len() as u64),
-            serde_json::to_string(&min.detail).unwrap_or_default()
+            serde_json::to_string(&min_detail).unwrap_or_default()
         );
         reported.push(json!({"class": class, "replay": path, "occurrences": unknown.len()}));
         violations += 1;
